@@ -125,7 +125,7 @@ def minimise(mod, case, viol, budget_s):
             if time.time() > t_end:
                 break
             ok = None
-            for k in range(4):
+            for k in range(getattr(mod, 'SHRINK_SEEDS', 4)):
                 c2 = json.loads(json.dumps(cand))
                 if k:
                     c2['sched_seed'] = c2.get('sched_seed', 0) + 7919 * k
